@@ -249,7 +249,7 @@ func (t *svTree) runnable(dn string) Runnable {
 		lat := in.beh.Lat
 		k := in.beh.K
 		step := 0
-		fault := in.beh.End == "err" || in.beh.End == "nil" || in.beh.End == "panic"
+		fault := in.beh.End != "stay" && in.beh.End != "done"
 		holdUntil := time.Now().Add(6 * time.Second) // a trigger that never comes does not hold the End back for ever
 		for {
 			if sawc {
@@ -321,6 +321,16 @@ func (t *svTree) runnable(dn string) Runnable {
 		case "panic":
 			exit("panic")
 			panic("scripted panic in " + dn)
+		// errors that merely look like a cancellation: they do not come from the supervisor's context of this node
+		case "canceled":
+			exit("canceled")
+			return context.Canceled
+		case "wrapcanceled":
+			exit("wrapcanceled")
+			return fmt.Errorf("%s instance %d: sub-context: %w", dn, no, context.Canceled)
+		case "deadline":
+			exit("deadline")
+			return context.DeadlineExceeded
 		default:
 			exit("err")
 			return fmt.Errorf("%s instance %d: %w", dn, no, errScripted)
